@@ -350,6 +350,11 @@ impl PoolImpl {
         let first_unpruned_slot = self.first_unpruned_slot();
         self.slot_states = self.slot_states.split_off(&first_unpruned_slot);
         self.parent_ready_tracker.prune(first_unpruned_slot);
+        // blocks in decided slots no longer wait for a certificate of their parent
+        self.s2n_waiting_parent_cert.retain(|_, children| {
+            children.retain(|(slot, _)| *slot >= first_unpruned_slot);
+            !children.is_empty()
+        });
         // NOTE: The finality tracker prunes its own state internally.
     }
 
